@@ -1,4 +1,5 @@
 """Per-property configuration: streams, observation alphabets, non-triviality rules, monitors."""
+import os
 from .core import Stream, sections, fdec
 
 TRUSTED_COMMON = [
@@ -870,6 +871,35 @@ class C08(Prop):
                                                          f"backtest {bt}: in the interleaved run the response is [{i[k][:160]}], in the solo run [{simpl[pos[k]][:160]}]",
                                                          impl=i[k], origin="solo-run comparison"))
                     break
+        self.concurrent(stream, tier, collect)
+
+    def concurrent(self, stream, tier, collect):
+        """real threads, real sockets (support for the serial theorem, see DESIGN section 6): several reqwest clients drive
+        one multi-worker HttpServer at the same time; ids must be distinct and every client's responses those of a solo run"""
+        from . import core
+        import json, subprocess
+        comp = stream.component.replace("server-", "http-")
+        seed = int(os.environ.get("VERIF_SEED", "0"))
+        clients, rounds, steps = (8, 60, 40) if tier == "thorough" else (6, 6, 30)
+        cmd = [core.HBIN, comp, "conc", str(seed), str(clients), str(rounds), str(steps)]
+        p = subprocess.run(cmd, env=core.ENV, stdout=subprocess.PIPE, stderr=subprocess.DEVNULL, text=True)
+        line = [l for l in p.stdout.strip().split("\n") if l.startswith("{")]
+        if p.returncode != 0 or not line:
+            raise core.HarnessCrash(f"the harness stopped during the concurrent run ({comp})")
+        r = json.loads(line[-1])
+        st = collect.setdefault("run_stats", {})
+        if not r.get("tcp"):
+            st[f"{stream.component}.concurrent_run_skipped_tcp_unavailable"] = 1
+            return
+        st[f"{stream.component}.concurrent_requests"] = st.get(f"{stream.component}.concurrent_requests", 0) + r["requests"]
+        st[f"{stream.component}.concurrent_clients_x_rounds"] = clients * rounds
+        collect["evaluations"] += r["requests"]
+        if r["id_collisions"] or r["transcript_mismatches"]:
+            clause = "concurrent-clients-get-distinct-ids" if r["id_collisions"] else "concurrent-responses-equal-solo-run"
+            f = core.Failure("monitor", stream, ["RESET", "# " + " ".join(cmd)], 1, clause,
+                             json.dumps(r["first"])[:1500], impl=json.dumps(r), origin="concurrent clients over a real socket (schedule-dependent: re-run the command in the ops to reproduce)")
+            f.no_shrink = True
+            collect["fails"].append(f)
 
 
 # ---------------------------------------------------------------- broker protocol
